@@ -2,6 +2,8 @@ import SpecKitV.Lemmas.Starts
 import SpecKitV.Lemmas.SchedLtf
 import SpecKitV.Lemmas.SchedNewVec
 import SpecKitV.Props.C02
+import SpecKitV.Props.SchedGen
+import SpecKitV.Props.Utils
 
 #print axioms roundHalfUp_eq
 #print axioms capK_le
@@ -31,3 +33,8 @@ import SpecKitV.Props.C02
 #print axioms vecPlan_safe
 #print axioms planValidate_ok
 #print axioms planValidate_ok_lpsd
+#print axioms gen_ltf_round_eq
+#print axioms gen_ltf_walk_eq_model
+#print axioms gen_new_walk_eq_model
+#print axioms gen_round_half_up_eq_model
+#print axioms gen_round_half_up_eq_floor
